@@ -537,6 +537,7 @@ webServer.assetsDir = %s
 	startClient(earlyB, earlyBN)
 	startClient(lateB, lateBN)
 
+	setupRaceServer(pa)
 	httpTargets = buildHTTPTargets()
 	muxTargets = buildMuxTargets()
 	webAPIs = []*webAPI{
@@ -570,4 +571,5 @@ func teardownEnv() {
 	}
 	envA.Srv.Close()
 	envB.Srv.Close()
+	envC.Srv.Close()
 }
